@@ -134,6 +134,11 @@ def _strip_lean_comments(text):
         elif text.startswith('--', i):
             while i < n and text[i] != '\n':
                 i += 1
+        elif text.startswith("'\"'", i) or text.startswith("'\\\"'", i):
+            # the character literal '"' (or '\"') does not open a string
+            k = 3 if text.startswith("'\"'", i) else 4
+            out.append("' '")
+            i += k
         elif text[i] == '"':
             j = i + 1
             while j < n and text[j] != '"':
